@@ -12,7 +12,7 @@ HARNESSES = [
 ]
 # repaired: the behaviour the theorems are proved for.  The others reproduce the recorded defects, one at a
 # time and all together, so that fixing one of them upstream does not turn the others into false alarms.
-VARIANTS = ["repaired", "def_rguard"]
+VARIANTS = ["repaired"]
 RULE = ("ipcp/lcp/v6: ProcessConfReq called directly; every option list of length <= 2 (quick) / 3 (thorough) over a "
         "structured alphabet (implemented + unknown types, data lengths 0,1,2,3,4,5,6,8,9,253, values assigned / zero / "
         "local / near-miss / other) against every configuration class (assigned nil / 4-byte / 16-byte mapped / 0.0.0.0 / "
@@ -26,7 +26,8 @@ RULE = ("ipcp/lcp/v6: ProcessConfReq called directly; every option list of lengt
         "first), plus random ones up to length 12; BuildConfReq printed after every non-request step. fsm: the real FSM with the real handler in every state 0..9, "
         "Input(ConfReq) with serialized structured lists, random bytes, truncations, bad length bytes, trailing byte; "
         "emitted packets decoded by an independent decoder. sess: real SessionState (initPPP, extractIPFromAttributes, "
-        "startNCP, onIPCPUp, re-authentication = both run again on the same session) with AAA address none / usable / 0.0.0.0 / IPv6 and random histories of subscriber "
+        "startNCP, onIPCPUp; D/R = the subscriber renegotiates LCP through the real LCP FSM: real onLCPDown, which since "
+        "e9950ea ends a started PPPoE session; on the LNS owner R = extract + startNCP again) with AAA address none / usable / 0.0.0.0 / IPv6 and random histories of subscriber "
         "Configure-Requests and Configure-Ack/Nak/Reject answers to the BNG's own request (verbatim and forged); session address and ipcpOpen after every event. sess cases also fix the outcome of pool allocation / address reservation (a real one-address "
         "allocator registry, free or held by another session) at start and at every re-authentication; lns: the same "
         "histories against a real internal/l2tp Session (initSessionPPP, extractIPFromAttributes, startNCP, onIPCPUp). "
@@ -645,6 +646,8 @@ def _monitor(case, impl, out):
             parts = impl.split(" | ")
             wire_id, clean = None, True   # identifier in the BNG's last Configure-Request; no learning since
             for ev, p in zip(["start"] + f[2:], parts):
+                if p == "ended":
+                    break
                 if ev[0] in "nR":
                     clean = False
                 toks = p.split()
@@ -667,6 +670,8 @@ def _monitor(case, impl, out):
             seen_pa = set()
             pa = None
             for ev, p in zip(["start"] + f[2:], parts):
+                if p == "ended":
+                    break           # the session was torn down (LCP left Opened on a started session)
                 toks = p.split()
                 kv = dict(x.split("=", 1) for x in toks if "=" in x)
                 if ev == "start" and kv.get("lcp", "ok") != "ok":
